@@ -56,7 +56,12 @@ template<bool IsCtx, class P> Res do_op(const P& p, int op, const std::string& i
     Res r{ 0, 0, 0 };
     try {
         switch (op) {
-        case 0: { string_buffer b{ std::string(in) }; std::ostringstream ss; if constexpr (IsCtx) { Ctx c; r.v = ov(p.context_parse(c, b, ss)); r.extra = c.calls; } else r.v = ov(p.parse(b, ss)); r.sh = hash(ss.str()); break; }
+        case 0: {
+            // outside the isolated phase every thread keeps ONE std::ostringstream for all its calls (text cleared, formatting state kept): what a call
+            // leaves behind in the caller's stream (sticky manipulators) shows up in the text of a later call
+            static thread_local std::ostringstream kept; std::ostringstream fresh_ss;
+            std::ostringstream& ss = (fresh_mode || nest_fn || nest_depth > 0) ? fresh_ss : kept; ss.str(std::string());      // (nested parses would share the kept stream with their outer parse)
+            string_buffer b{ std::string(in) }; if constexpr (IsCtx) { Ctx c; r.v = ov(p.context_parse(c, b, ss)); r.extra = c.calls; } else r.v = ov(p.parse(b, ss)); r.sh = hash(ss.str()); break; }
         case 1: { string_buffer b{ std::string(in) }; ystream ss; if constexpr (IsCtx) { Ctx c; r.v = ov(p.context_parse(c, parse_options{}.set_verbose(), b, ss)); r.extra = c.calls; } else r.v = ov(p.parse(parse_options{}.set_verbose(), b, ss)); r.sh = hash(ss.text); break; }
         case 2: { string_view_buffer b{ std::string_view(in) }; if constexpr (IsCtx) { const Ctx c; struct CX { const Ctx& c; }; r.v = NONE + 1; } else r.v = ov(p.parse(b)); break; }
         case 3: { std::ostringstream ss; p.write_diag_str(ss); r.sh = hash(ss.str()); r.v = long(ss.str().size()); break; }
@@ -222,7 +227,8 @@ def inputs_for(g, rnd, n):
         if s is None: s = []
         if rnd.random() < 0.4: s = gg.mutate_tokens(s, len(g.terms), rnd)
         outs.append(b''.join(tbytes(t) + (b' ' if (rnd.random() < 0.3 or g.terms[t].kind == 'r') else b'') for t in s))
-    outs.append(b''); outs.append(b'?')
+    outs.append(b''); outs.append(b'?'); outs.append(b'\xe9'); outs.append(b'\x00')
+    if outs and outs[0]: outs.append(outs[0][: len(outs[0]) // 2] + b'\xc3\xa9' + outs[0][len(outs[0]) // 2:])
     return outs
 
 def worker(spec):
